@@ -190,6 +190,30 @@ package proto
 
 //@ spec func wfStr(c Val) Bool = forall k in 0..len(c.Pos) :: 0 <= c.Pos[k].Start && c.Pos[k].Start <= c.Pos[k].End && c.Pos[k].End <= len(c.Buf)
 
+//@ -- strOff(S, E, o, k): encoded size of rows 0..k-1 (varint length prefix + bytes each), where
+//@ -- S/E are the Start/End arrays of c.Pos and o its slice offset
+//@ spec func strOff(s Ints, e Ints, o Int, k Int) Int
+//@ axiom strOff_zero when strOff: forall s:Ints, e:Ints, o :: strOff(s, e, o, 0) == 0
+//@ -- the step is stated over two EXISTING applications (no new term is created by instantiating it,
+//@ -- so the recursion cannot run away in the solver)
+//@ axiom strOff_step when strOff: forall s:Ints, e:Ints, o, k, k2 :: trigger(strOff(s, e, o, k), strOff(s, e, o, k2), 0 <= k && k2 == k + 1 ==> strOff(s, e, o, k2) == strOff(s, e, o, k) + uvsize(e[o + k] - s[o + k]) + (e[o + k] - s[o + k]))
+
+//@ -- EncodeColumn appends, row after row, the varint of the row length and the row bytes; nothing
+//@ -- else, wherever the buffer stood before (C01), and only the buffer changes (C16)
+//@ contract (c ColStr) EncodeColumn(b) props(C01,C14,C16)
+//@   requires b != nil && wfStr(c)
+//@   modifies b.Buf
+//@   let base = offset(b.Buf) + old(len(b.Buf))
+//@   ensures appendOnly(b, strOff(fieldarr(c.Pos, Start), fieldarr(c.Pos, End), offset(c.Pos), len(c.Pos))) {length}
+//@   ensures forall k in 0..len(c.Pos) :: uvAt(arrayof(b.Buf), base + strOff(fieldarr(c.Pos, Start), fieldarr(c.Pos, End), offset(c.Pos), k), c.Pos[k].End - c.Pos[k].Start) {row-length-prefixes}
+//@ loop 0 (rangeindex)
+//@   modifies b.Buf, contents(buf)
+//@   invariant -1 <= rangeindex && rangeindex < len(c.Pos) && len(buf) == 10
+//@   invariant len(b.Buf) == old(len(b.Buf)) + strOff(fieldarr(c.Pos, Start), fieldarr(c.Pos, End), offset(c.Pos), rangeindex + 1)
+//@   invariant forall k in 0..old(len(b.Buf)) :: b.Buf[k] == old(b.Buf[k])
+//@   invariant forall k in 0..rangeindex + 1 :: trigger(strOff(fieldarr(c.Pos, Start), fieldarr(c.Pos, End), offset(c.Pos), k), strOff(fieldarr(c.Pos, Start), fieldarr(c.Pos, End), offset(c.Pos), k + 1) <= strOff(fieldarr(c.Pos, Start), fieldarr(c.Pos, End), offset(c.Pos), rangeindex + 1))
+//@   invariant forall k in 0..rangeindex + 1 :: uvAt(arrayof(b.Buf), offset(b.Buf) + old(len(b.Buf)) + strOff(fieldarr(c.Pos, Start), fieldarr(c.Pos, End), offset(c.Pos), k), c.Pos[k].End - c.Pos[k].Start)
+
 //@ contract (c ColStr) Rows() (n) props(C01,C06,C16)
 //@   ensures n == len(c.Pos)
 //@ contract (c *ColStr) Reset() props(C16)
